@@ -22,7 +22,7 @@ class Unknown:
 def hkey(v):
     if isinstance(v, (str, int, float, bool, type(None), tuple)):
         return v
-    if isinstance(v, (Closure, AbsFun, Builtin, Ref, SStr, BoundMethod, ClassRef, SOpaque)):
+    if isinstance(v, (Closure, AbsFun, Builtin, Ref, SStr, BoundMethod, ClassRef, SOpaque, TypeTag)):
         return v
     raise Unsupported('dict key %r' % (v,))
 
@@ -57,6 +57,9 @@ def _same(a, b):
     if isinstance(a, SStr) and isinstance(b, SStr) and _atoms(a) and _atoms(b) and \
             len(_atoms(a)[1]) == 1 and len(_atoms(b)[1]) == 1:
         return _atoms(a)[1] == _atoms(b)[1]          # two atomic tokens are equal strings iff they are the same token
+    for x, y in ((a, b), (b, a)):      # numpy.ndarray is modelled as a builtin constructor, type(array) as a type tag
+        if isinstance(x, TypeTag) and x.name == 'ndarray' and isinstance(y, Builtin) and y.name == 'numpy.ndarray':
+            return True
     if isinstance(a, (Closure, AbsFun, Builtin, Ref, SStr, ClassRef, SOpaque)) or \
        isinstance(b, (Closure, AbsFun, Builtin, Ref, SStr, ClassRef, SOpaque)):
         return a is b
@@ -385,6 +388,17 @@ def setitem(I, obj, idx, v):
             if isinstance(idx, slice):
                 if idx.start is None and idx.stop is None and idx.step is None:
                     list_assign_all(I, obj, v)
+                    return
+                if not obj.nd and all(b is None or (isinstance(b, int) and not isinstance(b, bool)) for b in (idx.start, idx.stop, idx.step)):
+                    # python list, concrete bounds: exactly python's slice assignment (may change the length)
+                    items = concrete_iter(I, v)
+                    if items is None:
+                        raise Unsupported('slice assignment from a sequence of symbolic length')
+                    st.note_write(obj)
+                    try:
+                        cell[idx] = list(items)
+                    except ValueError:
+                        raise PyExc('ValueError', 'extended slice size mismatch')
                     return
                 raise Unsupported('slice assignment')
             if isinstance(idx, SV):
